@@ -141,16 +141,17 @@ func (m *urlModule) createURLSearchParamsPrototype() *goja.Object {
 		}
 
 		name := call.Argument(0).String()
+		byName := len(call.Arguments) == 1 || goja.IsUndefined(call.Argument(1))
+		var value string
+		if !byName {
+			// converted before the list is walked: a toString() that changes the list must not run in the middle
+			value = call.Argument(1).String()
+		}
 		isValid := func(v searchParam) bool {
-			if len(call.Arguments) == 1 || goja.IsUndefined(call.Argument(1)) {
+			if byName {
 				return v.name != name
-			} else if v.name == name {
-				arg := call.Argument(1)
-				if !goja.IsUndefined(arg) && v.value == arg.String() {
-					return false
-				}
 			}
-			return true
+			return !(v.name == name && v.value == value)
 		}
 
 		j := 0
@@ -253,6 +254,8 @@ func (m *urlModule) createURLSearchParamsPrototype() *goja.Object {
 		}
 
 		name := call.Argument(0).String()
+		// converted before the list is walked: a toString() that changes the list must not run in the middle
+		value := call.Argument(1).String()
 		found := false
 		j := 0
 		for i, sp := range u.searchParams {
@@ -261,7 +264,7 @@ func (m *urlModule) createURLSearchParamsPrototype() *goja.Object {
 					continue // Remove all values
 				}
 
-				u.searchParams[i].value = call.Argument(1).String()
+				u.searchParams[i].value = value
 				found = true
 			}
 			if i != j {
@@ -273,7 +276,7 @@ func (m *urlModule) createURLSearchParamsPrototype() *goja.Object {
 		if !found {
 			u.searchParams = append(u.searchParams, searchParam{
 				name:  name,
-				value: call.Argument(1).String(),
+				value: value,
 			})
 		} else {
 			u.searchParams = u.searchParams[:j]
